@@ -472,16 +472,17 @@ func (h *hostsRun) checkNotifs(exp []model.Notif, what string) {
 			extra = append(extra, k)
 		}
 	}
-	// An owed offline notification of a superseded IPv4 address (host offline and pending in the
-	// model) may be delivered with any notification of the same MAC: the statement fixes that it
-	// is delivered exactly once and before the new address's online notification, not at which
-	// later Notify when the new address itself is no longer online. Accept it and settle the debt.
+	// An owed notification of an offline address (host offline and pending in the model: a
+	// superseded IPv4 address, or an address of either family that learned a name while offline)
+	// may be delivered with any notification of the same MAC: the statement fixes that it is
+	// delivered exactly once (and, for a superseded IPv4 address, before the new address's online
+	// notification), not at which Notify. Accept it and settle the debt.
 	if len(extra) > 0 && len(g) > len(extra) {
 		var rest []string
 		for _, k := range extra {
 			settled := false
 			for _, x := range h.m.Sorted() {
-				if !x.Online && x.Pending && x.IP.Is4() && h.m.NotifKey(x) == k {
+				if !x.Online && x.Pending && h.m.NotifKey(x) == k {
 					for _, n := range g {
 						if n.MAC == x.MAC && n.IP != x.IP {
 							settled = true
